@@ -75,6 +75,13 @@ def scenarios(thorough):
     out.append({"phase": "build", "label": "launch-set-twice", "script": {"build": {"kind": "pass", "launch": LAUNCH3, "launch2": second, "store": STORE3}}})
     two_defaults = dict(LAUNCH3, processes=[dict(p, default=p["type"] in ("web", "worker", "cron")) for p in LAUNCH3["processes"]])
     out.append({"phase": "build", "label": "several-default-processes", "script": {"build": {"kind": "pass", "launch": two_defaults}}})
+    # slices listing a glob twice (inside one slice and across slices)
+    red = dict(LAUNCH3, slices=[["*.a", "b", "*.a", "c", "d"], ["b", "e", "f", "e"]])
+    out.append({"phase": "build", "label": "launch-redundant-slice-globs", "script": {"build": {"kind": "pass", "launch": red}}})
+    # layers named like the phase's own output files: the directory <layers>/launch.toml/ makes writing
+    # launch.toml fail; what a failed build leaves must not depend on the process either
+    for n, extra in (("launch.toml", {"launch": LAUNCH3}), ("store.toml", {"store": STORE3}), ("build.sbom.cdx.json", {"build_sboms": SB3})):
+        out.append({"phase": "build", "label": f"layer-named-{n}", "script": {"build": dict({"kind": "pass", "ops": [{"op": "cached", "name": n, "launch": True}, {"op": "write_metadata", "name": n, "metadata": MD3}]}, **extra)}})
     # exec.d programs that share one source file (three names, one source), by both APIs
     same_src = {"10-alpha": "p1", "20-beta": "p1", "30-gamma": "p1", "40-other": "p2"}
     out.append({"phase": "build", "label": "execd-shared-source:write_exec_d", "script": {"build": {"kind": "pass", "ops": [{"op": "cached", "name": "a", "launch": True}, {"op": "write_exec_d", "name": "a", "programs": same_src}]}}})
@@ -168,7 +175,7 @@ def run(ctx):
     for i, sc in enumerate(scs):
         runs = results[i]
         base_seed, _, (code0, out0) = runs[0]
-        if code0 != 0 and "missing" not in sc["label"]:
+        if code0 != 0 and "missing" not in sc["label"] and not sc["label"].startswith("layer-named-"):
             raise Machinery(f"C20 scenario {sc['label']} fails on its own: exit {code0}")
         distinct_docs.add(json.dumps(sorted((k, str(v)) for k, v in out0.items())))
         for seed, tag, (code, out) in runs[1:]:
